@@ -136,6 +136,11 @@ fn run_case(case: &Value) -> Value {
     if cfg["random_order"].as_bool().unwrap_or(false) {
         b.enable_random_order();
     }
+    let v6 = cfg["ipv6"].as_bool().unwrap_or(false);
+    if v6 {
+        b.ip_version(turmoil::IpVersion::V6);
+    }
+    let wild: IpAddr = if v6 { IpAddr::V6(std::net::Ipv6Addr::UNSPECIFIED) } else { IpAddr::V4(Ipv4Addr::UNSPECIFIED) };
     let mut sim = b.build();
     if let Some(c) = cfg.get("curve").and_then(|c| c.as_f64()) {
         sim.set_message_latency_curve(c);
@@ -180,11 +185,11 @@ fn run_case(case: &Value) -> Value {
             let tcp_recv = tcp_recv.clone();
             let tcp_ev = tcp_ev.clone();
             async move {
-                let sock = UdpSocket::bind((IpAddr::V4(Ipv4Addr::UNSPECIFIED), PORT)).await?;
+                let sock = UdpSocket::bind((wild, PORT)).await?;
                 let conns: Rc<RefCell<std::collections::BTreeMap<u64, Rc<TcpStream>>>> =
                     Rc::new(RefCell::new(std::collections::BTreeMap::new()));
                 if use_tcp {
-                    let lis = TcpListener::bind((IpAddr::V4(Ipv4Addr::UNSPECIFIED), TCP_PORT)).await?;
+                    let lis = TcpListener::bind((wild, TCP_PORT)).await?;
                     let (tcp_recv, step_no, ips) = (tcp_recv.clone(), step_no.clone(), ips.clone());
                     tokio::task::spawn_local(async move {
                         loop {
